@@ -40,29 +40,31 @@ def run(chk):
     report(chk, 'c03', hs, bad)
 
 
-def report(chk, name, hs, bad, prop_sig=None):
-    seen = set()
+def report(chk, name, hs, bad, prop_sig=None, max_sigs=5):
+    """One shrunk replay per distinct signature (classifier first, on the unshrunk history)."""
+    seen = {}
     for i, mode, code, term in bad:
         cfg, ops = hs[i]
-        kind = 'property' if code & 2 else 'correspondence'
-        if (kind, mode) in seen:
-            continue
-        seen.add((kind, mode))
-
-        def still(cfg_, ops_, want=code):
-            c, _ = srvcommon.eval_one(name, cfg_, ops_, mode)
-            return (c & 2) == (want & 2) and c != 0
+        if code & 2:
+            sig = prop_sig(cfg, ops, mode) if prop_sig else '%s-%s-property' % (name, mode)
+        else:
+            sig = '%s-%s-correspondence' % (name, mode)
+        if sig not in seen and len(seen) < max_sigs:
+            seen[sig] = (i, mode, code)
+    for sig, (i, mode, code) in seen.items():
+        cfg, ops = hs[i]
         try:
-            small = srvcommon.shrink_history(cfg, ops, still)
+            small = srvcommon.shrink_history(name, cfg, ops, mode, bool(code & 2))
+            if code & 2 and prop_sig and prop_sig(cfg, small, mode) != sig:
+                small = ops         # shrinking moved to another class: keep the original
         except Exception:
             small = ops
         replay = {'py': repr((cfg, small, mode))}
         if code & 2:
-            sig = prop_sig(cfg, small, mode) if prop_sig else '%s-%s-property' % (name, mode)
             chk.violation(sig, 'the %s server violates the Coq-checked %s checker on this history' % (mode, name.upper()), replay)
         else:
             chk.broken_obligation('correspondence: Server.v and the %s server disagree (history %d)' % (mode, i))
-            chk.violation('%s-%s-correspondence' % (name, mode), 'model and implementation disagree', replay, no_input=True)
+            chk.violation(sig, 'model and implementation disagree', replay, no_input=True)
 
 
 def replay(chk, data, name='c03'):
